@@ -235,7 +235,23 @@ impl HashedNTupleLayoutConfig {
             self.digest_algorithm,
             self.tuple_size,
             self.number_of_tuples,
-        )
+        )?;
+
+        if self.short_object_root {
+            let digest: String = self
+                .digest_algorithm
+                .hash_hex(&mut "test".as_bytes())
+                .unwrap()
+                .into();
+            if digest.len() == self.tuple_size * self.number_of_tuples {
+                return Err(RocflError::InvalidConfiguration(format!(
+                    "shortObjectRoot must be false when tupleSize={} and numberOfTuples={} use all {} characters of the {} digest.",
+                    self.tuple_size, self.number_of_tuples, digest.len(), self.digest_algorithm
+                )));
+            }
+        }
+
+        Ok(())
     }
 }
 
